@@ -12,11 +12,22 @@ package planner
 // goroutine fan-out of the pattern stage - is outside the subset and havoced).
 //@ ghost field queryPlan.#stage Int
 //@ props C12 C13 C11 C03 C08
-//@ func (p *queryPlan) processGraphPattern
+// organizeFilterOptionsByClause sorts the FILTER clauses by the graph clause they apply to. ASSUMED:
+// it only reads its arguments and allocates its result (no driver call, nothing else written).
+//@ func organizeFilterOptionsByClause
 //@   nobody
+//@   ensures[map-or-error] (result0 != nil && result1 == nil) || (result0 == nil && result1 != nil)
+// processGraphPattern: the clauses are processed one after the other; a failing driver call in any
+// of them is returned. (What the clauses compute is C03; here: error propagation and the stage.)
+//@ func (p *queryPlan) processGraphPattern
 //@   opt modifies-everything
+//@   opt obligations post:driver invariant
 //@   requires[stage] p != nil && p.#stage == 0
+//@   requires p.stm != nil && p.tbl != nil && lo != nil && (forall k int :: {p.clauses[k]} 0 <= k && k < len(p.clauses) ==> p.clauses[k] != nil)
+//@   ghostset p.#stage = 1
 //@   ensures[stage] p.#stage == 1
+//@   ensures[driver-error-surfaces@C20] $driverFailed && !old($driverFailed) ==> result != nil
+//@   loop 0 invariant[no-failure-so-far] ($driverFailed ==> old($driverFailed)) && p.stm != nil && p.tbl != nil && p.clauses == old(p.clauses) && 0 <= $i && $i <= len(p.clauses)
 // projectAndGroupBy (C11). With GROUP BY: the table is reduced with one accumulator per projection -
 // none for a plain binding, a counter for COUNT, a distinct counter for COUNT(DISTINCT ...), an
 // int64 or float64 adder for SUM according to the literal in the first row - under the projection's
@@ -46,13 +57,13 @@ package planner
 //@   atcall Reduce assert[sorted-by-projected-group-bindings] forall c int :: {cfg[c]} 0 <= c && c < len(cfg) ==> !cfg[c].Desc && (exists g int :: {p.stm.groupBy[g]} 0 <= g && g < len(p.stm.groupBy) && p.stm.groupBy[g] == cfg[c].Binding) && (exists k int :: {p.stm.projection[k]} 0 <= k && k < len(p.stm.projection) && p.stm.projection[k].Binding == cfg[c].Binding)
 //@ func (p *queryPlan) Execute
 //@   opt modifies-everything
-//@   opt obligations pre:stage post:all-stages-ran
+//@   opt obligations pre:stage post:all-stages-ran post:driver
 //@   requires p != nil && p.#stage == 0
 //@   ensures[all-stages-ran] result1 == nil ==> p.#stage == 5
+//@   ensures[driver-error-surfaces@C20] $driverFailed && !old($driverFailed) ==> result1 != nil
 // ASSUMED (not generated as obligations, see `opt obligations`): what the query stages leave alone and
 // what the table they return looks like - used by constructPlan.Execute only.
 //@   ensures[assumed-table-or-error] (result0 != nil && result1 == nil) || (result0 == nil && result1 != nil)
-//@   ensures[assumed-driver-error-surfaces] $driverFailed && !old($driverFailed) ==> result1 != nil
 //@   ensures[assumed-result-table] result0 != nil ==> result0.#lock_mu == 0 && (forall j int :: {result0.Data[j]} 0 <= j && j < len(result0.Data) ==> result0.Data[j] != nil && wfRow(result0.Data[j]))
 //@   ensures[assumed-templates-stay-well-formed] forall cc *semantic.ConstructClause :: {cc.predicateObjectPairs} {old(cc.predicateObjectPairs)} old(wfConstructClause(cc)) ==> wfConstructClause(cc)
 //@   ensures[assumed-construct-state-untouched] (forall c *constructPlan :: {c.stm} old(allocated(c)) ==> c.stm == old(c.stm) && c.store == old(c.store) && c.bulkSize == old(c.bulkSize) && c.construct == old(c.construct) && c.tracer == old(c.tracer)) && (forall s *semantic.Statement :: {s.constructClauses} old(allocated(s)) ==> s.constructClauses == old(s.constructClauses) && s.outputGraphNames == old(s.outputGraphNames)) && (forall cc *semantic.ConstructClause :: {cc.predicateObjectPairs} old(allocated(cc)) ==> cc.S == old(cc.S) && cc.SBinding == old(cc.SBinding) && cc.predicateObjectPairs == old(cc.predicateObjectPairs)) && (forall q *semantic.ConstructPredicateObjectPair :: {q.O} old(allocated(q)) ==> q.O == old(q.O) && q.P == old(q.P))
@@ -87,8 +98,11 @@ package planner
 //@ props C12 C13 C11 C08 C10 C03 C20
 //@ func (p *queryPlan) processClause
 //@   opt modifies-everything
-//@   opt obligations assert
+//@   opt obligations assert post:driver post:plan invariant
 //@   requires p != nil && p.stm != nil && p.tbl != nil && cls != nil && lo != nil
+//@   ensures[driver-error-surfaces@C20] $driverFailed && !old($driverFailed) ==> result1 != nil
+//@   ensures[plan-untouched] p.stm == old(p.stm) && p.tbl == old(p.tbl) && p.clauses == old(p.clauses)
+//@   loop 0 invariant[no-driver-call-yet] $driverFailed == old($driverFailed) && p.tbl != nil && p.stm != nil && p.stm == old(p.stm) && p.tbl == old(p.tbl) && p.clauses == old(p.clauses)
 //@   atcall simpleFetch assert[limit-push-down@C12] stmLimit != 0 ==> len(p.stm.pattern) == 1 && len(p.stm.groupBy) == 0 && len(p.stm.havingExpression) == 0 && len(p.stm.orderBy) == 0
 
 // simpleFetch runs the storage lookups of one clause on producer/consumer goroutines: outside the
@@ -102,6 +116,7 @@ package planner
 //@   ensures[own-table] result0 != nil ==> result0.#lock_mu == 0
 //@   ensures[driver-error-surfaces@C20] $driverFailed && !old($driverFailed) ==> result1 != nil
 //@   ensures[existing-rows-untouched] forall m table.Row, k string :: {has(m, k)} {old(has(m, k))} old(allocated(m)) ==> has(m, k) == old(has(m, k)) && m[k] == old(m[k])
+//@   ensures[plans-untouched] forall q *queryPlan :: {q.stm} {q.tbl} {q.clauses} q.stm == old(q.stm) && q.tbl == old(q.tbl) && q.clauses == old(q.clauses)
 //@   atcall Exist assert[all-three-fixed@C03] cls.S != nil && cls.P != nil && cls.O != nil && t != nil && t.s == cls.S && t.p == cls.P && t.o == cls.O
 //@   atcall Objects assert[subject-and-predicate-fixed@C03] cls.S != nil && cls.P != nil && cls.O == nil && s == cls.S && p == cls.P
 //@   atcall PredicatesForSubjectAndObject assert[subject-and-object-fixed@C03] cls.S != nil && cls.P == nil && cls.O != nil && s == cls.S && o == cls.O
@@ -126,10 +141,15 @@ package planner
 // is never lost - some row of the table extends it when the call succeeds.
 //@ func (p *queryPlan) addSpecifiedData
 //@   opt modifies-everything
-//@   opt obligations assert post:optional invariant
+//@   opt obligations assert post:optional post:driver post:existing-rows post:plan invariant
+//@   ensures[driver-error-surfaces@C20] $driverFailed && !old($driverFailed) ==> result != nil
+//@   ensures[existing-rows-untouched] forall m table.Row, k string :: {has(m, k)} {old(has(m, k))} old(allocated(m)) ==> has(m, k) == old(has(m, k)) && m[k] == old(m[k])
+//@   ensures[plan-untouched] p.stm == old(p.stm) && p.tbl == old(p.tbl) && p.clauses == old(p.clauses)
 //@   requires p != nil && p.stm != nil && p.tbl != nil && cls != nil && lo != nil
 //@   requires[row-has-bindings] r != nil && !has(r, "") && (exists k string :: {has(r, k)} has(r, k))
 //@   ensures[optional-keeps-row@C10] result == nil && cls.Optional ==> (exists j int :: {p.tbl.Data[j]} 0 <= j && j < len(p.tbl.Data) && extends(p.tbl.Data[j], r))
+//@   loop 0 invariant[existing-rows] forall m table.Row, k string :: {has(m, k)} {old(has(m, k))} old(allocated(m)) ==> has(m, k) == old(has(m, k)) && m[k] == old(m[k])
+//@   loop 1 invariant[existing-rows] forall m table.Row, k string :: {has(m, k)} {old(has(m, k))} old(allocated(m)) ==> has(m, k) == old(has(m, k)) && m[k] == old(m[k])
 //@   loop 0 invariant[optional-null-row] nr != nil && fresh(nr) && nr != r && r != nil && !has(r, "") && (exists k string :: {has(r, k)} has(r, k))
 //@   loop 1 invariant[optional-row-kept] 0 <= $i && r != nil && !has(r, "") && (exists k string :: {has(r, k)} has(r, k)) && ($i > 0 ==> (exists j int :: {p.tbl.Data[j]} 0 <= j && j < len(p.tbl.Data) && extends(p.tbl.Data[j], r)))
 //@   atcall simpleFetch assert[limit-push-down@C12] stmLimit != 0 ==> len(p.stm.pattern) == 1 && len(p.stm.groupBy) == 0 && len(p.stm.havingExpression) == 0 && len(p.stm.orderBy) == 0
@@ -445,3 +465,21 @@ package planner
 //@   loop 3 invariant[rows] forall j int :: {tbl.Data[j]} 0 <= j && j < len(tbl.Data) ==> tbl.Data[j] != nil && wfRow(tbl.Data[j])
 //@   loop 3 invariant[templates] forall k int :: {p.stm.constructClauses[k]} 0 <= k && k < len(p.stm.constructClauses) ==> wfConstructClause(p.stm.constructClauses[k])
 //@   loop 3 invariant[channels] deref(addr(tripChan)) != nil && deref(addr(tripChan)).#closed == 0 && deref(addr(done)) != nil && deref(addr(done)) != deref(addr(tripChan)) && deref(addr(done)).#len == 0 && deref(addr(done)).#closed == 0 && deref(addr(done)).#rcvd == 0 && deref(addr(tripChan)).#rcvd == 0 && deref(addr(writeErr)) == nil
+
+// specifyClauseWithTable: the clause is specialised with every row of the table, each on its own
+// goroutine of an errgroup (fork/join model: Group.Go runs the function when it is handed over,
+// Group.Wait returns the first error recorded): a failing row - in particular a failing driver
+// call - makes the whole step fail.
+//@ props C20 C08
+//@ func (p *queryPlan) specifyClauseWithTable
+//@   opt go-sequential
+//@   opt modifies-everything
+//@   opt obligations post:driver post:plan invariant pre
+//@   requires p != nil && p.stm != nil && p.tbl != nil && p.tbl.#lock_mu == 0 && cls != nil && lo != nil
+//@   requires[rows-are-table-rows] forall j int :: {p.tbl.Data[j]} 0 <= j && j < len(p.tbl.Data) ==> p.tbl.Data[j] != nil && allocated(p.tbl.Data[j]) && !has(p.tbl.Data[j], "") && (exists k string :: {has(p.tbl.Data[j], k)} has(p.tbl.Data[j], k))
+//@   ensures[driver-error-surfaces@C20] $driverFailed && !old($driverFailed) ==> result != nil
+//@   ensures[plan-untouched] p.stm == old(p.stm) && p.tbl == old(p.tbl) && p.clauses == old(p.clauses)
+//@   loop specifyClauseWithTable$1:0 invariant[plan-untouched] p.stm == old(p.stm) && p.tbl == old(p.tbl) && p.clauses == old(p.clauses)
+//@   loop specifyClauseWithTable$1:0 invariant[errors-recorded] deref(addr(grp)) != nil && ($driverFailed && !old($driverFailed) ==> egerr(deref(addr(grp))) != nil)
+//@   loop specifyClauseWithTable$1:0 invariant[plan] p.stm != nil && p.tbl != nil
+//@   loop specifyClauseWithTable$1:0 invariant[rows] forall j int :: {deref(addr(rws))[j]} 0 <= j && j < len(deref(addr(rws))) ==> deref(addr(rws))[j] != nil && allocated(deref(addr(rws))[j]) && !has(deref(addr(rws))[j], "") && (exists k string :: {has(deref(addr(rws))[j], k)} has(deref(addr(rws))[j], k))
